@@ -150,7 +150,9 @@ class C09:
     header = "From EQL Require Import Base Generated Mode.\nOpen Scope string_scope."
     impl_script = 'impl_mode.py'
     rule = ("every combination of quantifier (an, the) x condition kind (plain comparison, @predicate function, Predicate subclass, rule "
-            "inference constructing instances) x dataset (0, 1, 2, 3 qualifying objects), each evaluated under ambient mode none / query / "
+            "inference constructing instances, rule over a variable given by keyword only (expanded lazily during evaluation), a Predicate "
+            "subclass that builds and evaluates a query of its own inside its own symbolic block, followed by another Predicate subclass) "
+            "x dataset (0, 1, 2, 3 qualifying objects), each evaluated under ambient mode none / query / "
             "rule on fresh objects, and (an / infer) with the results of ONE evaluation drawn partly outside and partly inside a block, in "
             "both orders; the five outcomes (rows by object index, inferred instances by field identity, or the exception class) "
             "must coincide; non-trivial = at least one row or a MultipleSolutionFound outcome")
@@ -162,7 +164,7 @@ class C09:
 
     def gen(self, rng, i, tier):
         values = [rng.randint(0, 3) for _ in range(rng.randint(1, 4))]
-        return dict(pred=rng.choice(['cmp', 'function', 'class', 'infer']), quant=rng.choice(['an', 'the']), values=values,
+        return dict(pred=rng.choice(['cmp', 'function', 'class', 'infer', 'kw', 'nested']), quant=rng.choice(['an', 'the']), values=values,
                     level=rng.randint(0, 2))
 
     def to_coq(self, n, case):
